@@ -54,6 +54,8 @@ def run(ses):
     jobs += upper.assertion_jobs(ses.tier)
     from .. import coreapi
     jobs.append((coreapi.job_core_api, ()))        # newtype constructors, builder(), setters, Clone: what the caller writes reaches the entry point unchanged
+    from .. import kani as _kani
+    jobs.append((_kani.job_le64, ()))        # the PAE length prefix is a summary in the SMT runs: Kani checks le64 itself on the compiled code (all 2^64 inputs)
     run_jobs(ses, jobs)
     ses.trusted_base = c04.TRUSTED + ['PAE length prefix le64 is injective (Kani leaf K1)']
     ses.assumptions = ['A, A\' arbitrary strings (absent == empty), footer symbolic as well so that different splits of one concatenation are inside the query']
